@@ -64,6 +64,7 @@ struct Cfg {
     kind: String,
     noncomputable: bool,
     drop_fields: BTreeSet<String>,
+    int_consts: BTreeMap<String, i64>,
 }
 
 fn default_methods() -> BTreeMap<String, String> {
@@ -699,8 +700,8 @@ impl<'a> Tr<'a> {
                             _ => return Err("`for` pattern unsupported".into()),
                         };
                         let (lo, hi, incl) = as_range(&f.expr).ok_or_else(|| format!("`for` over `{}` unsupported (only literal ranges are unrolled)", tok(&*f.expr)))?;
-                        let lo = int_lit(lo).ok_or("`for` range bound is not an integer literal")?;
-                        let hi = int_lit(hi).ok_or("`for` range bound is not an integer literal")?;
+                        let lo = int_lit(lo).or_else(|| self.cfg.int_consts.get(&tok(lo)).copied()).ok_or("`for` range bound is not an integer literal")?;
+                        let hi = int_lit(hi).or_else(|| self.cfg.int_consts.get(&tok(hi)).copied()).ok_or("`for` range bound is not an integer literal")?;
                         let hi = if incl { hi + 1 } else { hi };
                         let mut unrolled: Vec<Stmt> = vec![];
                         for i in lo..hi {
@@ -995,7 +996,8 @@ fn main() {
             writeln!(text, "import {}", i).unwrap();
         }
         writeln!(text, "set_option linter.unusedVariables false").unwrap();
-        writeln!(text, "namespace Gen\nopen Prelude\n{}\n", header).unwrap();
+        let mheader = get_str(m, "header").unwrap_or_else(|| header.clone());
+        writeln!(text, "namespace Gen\nopen Prelude\n{}\n", mheader).unwrap();
 
         for t in m.get("targets").and_then(|t| t.as_array()).unwrap() {
             let mut cfg = Cfg::default();
@@ -1023,6 +1025,13 @@ fn main() {
             }
             cfg.pre = t.get("pre").and_then(|x| x.as_array()).map(|a| a.iter().filter_map(|x| x.as_str().map(|s| s.to_string())).collect()).unwrap_or_default();
             cfg.consts = consts.clone();
+            if let Some(Value::Object(m)) = t.get("int_consts") {
+                for (a, b) in m {
+                    if let Some(v) = b.as_i64() {
+                        cfg.int_consts.insert(norm(a), v);
+                    }
+                }
+            }
             cfg.drop_fields = t.get("drop_fields").and_then(|x| x.as_array()).map(|a| a.iter().filter_map(|x| x.as_str().map(|s| s.to_string())).collect()).unwrap_or_default();
 
             let path = format!("{}/{}", repo, cfg.file);
